@@ -39,7 +39,12 @@ int env_left = ENV_STEPS;
 int long_wait_mine;          /* MU_LONG_WAIT was set by this thread and not yet cleared */
 int ever_slept;              /* this thread has slept on the mutex during the call */
 int sleeps;                  /* number of times it went to sleep */
-int c14_in_lock;             /* inside nsync_mu_lock / nsync_mu_rlock (C14 obligations on the queueing) */
+int c14_in_lock;
+int on_cv;                    /* the thread is waiting on CV (its record is on CV's queue) */
+int cv_unlinked, cv_wake_delay;  /* two-step wake-up by a signaller: unlinked under the cv spinlock, flag cleared later */
+int woken_by_signal;          /* a signaller dequeued the thread's record from CV (it consumed a wake-up) */
+int cond_var;                 /* the condition of the thread's own nsync_mu_wait; other threads change it in their critical sections */
+int writer_release_expect_clear = 1;   /* C06: a writer's release by nsync_mu_unlock leaves MU_ALL_FALSE clear */             /* inside nsync_mu_lock / nsync_mu_rlock (C14 obligations on the queueing) */
 waiter Q[NQ];
 waiter MEW;                  /* this thread's waiter record: the per-thread cache of nsync_waiter_new_ is pre-seeded with it */
 #define me (&MEW)
@@ -85,11 +90,30 @@ void vf_env (void *addr) {
 			*(uint32_t *) &CV.word = w;
 		}
 	} else if (addr == (void *) &me->nw.waiting && *(uint32_t *) &me->nw.waiting != 0) {
-		/* the thread sleeps on the mutex: some unlocker dequeues it, marks it designated waker and wakes it */
-		MU.waiters = nsync_remove_from_mu_queue_ (MU.waiters, &me->nw.q);
-		*(uint32_t *) &me->nw.waiting = 0;
-		g_desig = 1; ever_slept = 1; sleeps++;
+		if (on_cv && me->cv_mu != 0) {
+			/* the thread waits on CV: a signaller may pick it at any moment (racing a timeout), in two steps as in the real code:
+			   (1) under the cv spinlock (which this thread must not hold then) it unlinks the record and bumps remove_count;
+			   (2) later, without the spinlock, it clears the waiting flag (and posts the semaphore) */
+			if (!cv_unlinked) {
+				if (!g_cvspin && (*(uint32_t *) &CV.word & CV_SPINLOCK) == 0 && (vf_nondet_nv () & 1) != 0) {
+					CV.waiters = nsync_dll_remove_ (CV.waiters, &me->nw.q);
+					*(uint32_t *) &me->remove_count = *(uint32_t *) &me->remove_count + 1;
+					if (CV.waiters == 0) { *(uint32_t *) &CV.word = *(uint32_t *) &CV.word & ~CV_NON_EMPTY; }
+					cv_unlinked = 1; woken_by_signal = 1;
+				}
+			} else if ((vf_nondet_nv () & 1) != 0 || cv_wake_delay >= 2) {
+				*(uint32_t *) &me->nw.waiting = 0;
+			} else {
+				cv_wake_delay++;
+			}
+		} else if (!on_cv) {
+			/* the thread sleeps on the mutex: some unlocker dequeues it, marks it designated waker and wakes it */
+			MU.waiters = nsync_remove_from_mu_queue_ (MU.waiters, &me->nw.q);
+			*(uint32_t *) &me->nw.waiting = 0;
+			g_desig = 1; ever_slept = 1; sleeps++;
+		}
 	}
+	if (g_mode == M_NONE && (vf_nondet_nv () & 1) != 0) { cond_var = (int) (vf_nondet_nv () & 1); }   /* others' critical sections change the condition */
 }
 
 void vf_guar (void *addr, uint32_t o, uint32_t n) {
@@ -113,6 +137,9 @@ void vf_guar (void *addr, uint32_t o, uint32_t n) {
 		} else if (dropped_w) {
 			vf_assert (g_mode == M_W);                                 /* C01: writer bit removed only by the writer */
 			vf_assert (rn == 0);
+			/* C06: a writer that releases WITHOUT scanning the waiters' conditions (fast path: it neither holds nor takes the queue spinlock)
+			   must clear MU_ALL_FALSE, because its section may have made conditions true; after a scan the bit reflects that scan */
+			if (writer_release_expect_clear && !g_spin && (n & MU_SPINLOCK) == 0) { vf_assert ((n & MU_ALL_FALSE) == 0); }
 			g_mode = M_NONE;
 		} else if (rn == ro + 1) {
 			vf_assert ((o & MU_WLOCK) == 0 && g_mode == M_NONE);       /* C01: reader count +1 only without writer, by a thread holding nothing */
@@ -188,20 +215,40 @@ void h_trylock (void) { int r; setup (M_NONE); r = nsync_mu_trylock (&MU); vf_as
 void h_rtrylock (void) { int r; setup (M_NONE); r = nsync_mu_rtrylock (&MU); vf_assert ((r != 0) == (g_mode == M_R) && (r != 0 || g_mode == M_NONE) && !g_spin); vf_assert (sleeps == 0); }
 void h_unlock (void) { setup (M_W); nsync_mu_unlock (&MU); vf_assert (g_mode == M_NONE && !g_spin); }
 void h_runlock (void) { setup (M_R); nsync_mu_runlock (&MU); vf_assert (g_mode == M_NONE && !g_spin); }
-void h_unlock_nowake (void) { setup (M_W); nsync_mu_unlock_without_wakeup (&MU); vf_assert (g_mode == M_NONE && !g_spin); }
-void h_mu_wait (void) {       /* C05: returns holding the mutex in the mode of entry, under any interference, timeout or not */
+void h_unlock_nowake (void) { setup (M_W); writer_release_expect_clear = 0; nsync_mu_unlock_without_wakeup (&MU); vf_assert (g_mode == M_NONE && !g_spin); }
+void h_mu_wait (void) {       /* C05: returns holding the mutex in the mode of entry; 0 exactly when the condition is true at return */
 	unsigned k = vf_nondet_nv ();
 	int r;
 	setup ((k & 1) ? M_R : M_W);
-	r = nsync_mu_wait_with_deadline (&MU, &cond_plain, &never_true, 0, (k & 2) ? nsync_time_s_ns (50, 0) : nsync_time_no_deadline, 0);
+	cond_var = 0;
+	writer_release_expect_clear = 0;     /* the wait itself releases the lock without having changed anything */
+	r = nsync_mu_wait_with_deadline (&MU, &cond_plain, &cond_var, 0, (k & 2) ? nsync_time_s_ns (50, 0) : nsync_time_no_deadline, 0);
 	vf_assert (g_mode == ((k & 1) ? M_R : M_W) && !g_spin);
 	vf_assert (r == 0 || r == ETIMEDOUT);
+	vf_assert ((r == 0) == (cond_var != 0));         /* the lock is held here, so nobody changes cond_var any more */
+	if (!(k & 2)) { vf_assert (r == 0); }
 }
-void h_cv_wait (void) {
+void h_cv_wait (void) {       /* C05 + C04: mode of entry restored; a wait that consumed a wake-up reports 0 */
 	unsigned k = vf_nondet_nv ();
+	int r;
 	setup ((k & 1) ? M_R : M_W);
-	(void) nsync_cv_wait_with_deadline (&CV, &MU, (k & 2) ? nsync_time_s_ns (50, 0) : nsync_time_no_deadline, 0);
-	vf_assert (g_mode == ((k & 1) ? M_R : M_W) && !g_spin);
+	on_cv = 1;
+	writer_release_expect_clear = 0;
+	r = nsync_cv_wait_with_deadline (&CV, &MU, (k & 2) ? nsync_time_s_ns (50, 0) : nsync_time_no_deadline, 0);
+	on_cv = 0;
+	vf_assert (g_mode == ((k & 1) ? M_R : M_W) && !g_spin && !g_cvspin);
+	vf_assert (r == 0 || r == ETIMEDOUT);
+	if (woken_by_signal) { vf_assert (r == 0); }       /* C04: never reported as a timeout */
+	if (!(k & 2)) { vf_assert (r == 0); }
+}
+/* C14: the mutex stays busy (writer-held for a writer victim, or writer-held/reader-held), so the victim is sent back to sleep again and again */
+void h_lock_long (void) {
+	unsigned k = vf_nondet_nv ();
+	setup (M_NONE);
+	c14_in_lock = 1;
+	if (k & 1) { nsync_mu_lock (&MU); vf_assert (g_mode == M_W); } else { nsync_mu_rlock (&MU); vf_assert (g_mode == M_R); }
+	c14_in_lock = 0;
+	vf_assert (!long_wait_mine);          /* whoever set MU_LONG_WAIT has cleared it on acquiring */
 }
 /* a condition variable with 1..2 waiters that are associated with MU (so signal/broadcast may transfer them to MU's queue) */
 waiter CQ[2];
@@ -222,15 +269,6 @@ void h_cv_signal (void) {     /* C01: a signaller (holding the mutex in any mode
 	setup (k); setup_cv ();
 	if (vf_nondet_nv () & 1) { nsync_cv_signal (&CV); } else { nsync_cv_broadcast (&CV); }
 	vf_assert (g_mode == (int) k && !g_spin && !g_cvspin);
-}
-/* C14: the mutex stays busy (writer-held for a writer victim, or writer-held/reader-held), so the victim is sent back to sleep again and again */
-void h_lock_long (void) {
-	unsigned k = vf_nondet_nv ();
-	setup (M_NONE);
-	c14_in_lock = 1;
-	if (k & 1) { nsync_mu_lock (&MU); vf_assert (g_mode == M_W); } else { nsync_mu_rlock (&MU); vf_assert (g_mode == M_R); }
-	c14_in_lock = 0;
-	vf_assert (!long_wait_mine);          /* whoever set MU_LONG_WAIT has cleared it on acquiring */
 }
 char dbuf[4];
 void h_cv_debug (void) {      /* C16: the cv debug-state functions only observe */
